@@ -45,9 +45,10 @@ Labels(e) ==
 TraceCall ==
   /\ l <= Len(Trace) /\ Trace[l].ev = "Call" /\ l' = l + 1
   /\ LET e     == Trace[l]
-         r     == [tool |-> e.row.tool, role |-> e.row.role, mut |-> e.row.mut, rc |-> e.row.rc,
+         r     == [tool |-> e.row.tool, spell |-> e.row.spell, role |-> e.row.role, mut |-> e.row.mut, rc |-> e.row.rc,
                    principal |-> e.row.principal, actor |-> e.row.actor, shape |-> e.row.shape, lab |-> Labels(e)]
-         t     == r.tool
+         bt    == r.tool            \* the tool whose arguments and environment the call has
+         t     == WireTool(r)       \* the tool the name on the wire is (a near miss of a name is not a tool)
          lab   == r.lab
          mutating == t \in MutatingTools
          want  == ExpectObs(r)
@@ -64,8 +65,10 @@ TraceCall ==
                  /\ e.real.path = lab.path /\ e.real.pid = lab.pid /\ e.real.extra = lab.extra /\ e.real.mode = lab.mode
                  /\ e.real.wire = lab.wire /\ e.real.backend = lab.backend /\ e.real.conf = lab.conf
                  /\ (r.principal => e.real.actor = lab.actor)
-                 /\ ShapeApplies(t, r.shape) /\ lab = ShapeLab(t, r.actor, r.shape))
-        /\ Chk("harness_victims", e.victim.present = (t \in PidTools /\ t # "instance_start" /\ lab.conf # "nopid"))
+                 /\ ShapeApplies(bt, r.shape) /\ lab = ShapeLab(bt, r.actor, r.shape))
+        /\ Chk("harness_name", /\ (r.spell = "exact") = (e.wire_name = bt)
+                               /\ (r.spell # "exact" => e.wire_name \notin AllTools))
+        /\ Chk("harness_victims", e.victim.present = (bt \in PidTools /\ bt # "instance_start" /\ lab.conf # "nopid"))
         \* ---- role / flag / principal / actor gate: the call ran only if allowed
         /\ Chk("class", want = "any" \/ obs = want)
         /\ Chk("class_iserror", (e.obs = "refused") = (e.is_error \/ e.rpc_error))
